@@ -62,8 +62,10 @@ type Engine struct {
 	Pkgs       map[string]*packages.Package // by role
 	SSA        map[string]*ssa.Package      // by role
 	Prog       *ssa.Program
-	all        []*ssa.Function // source functions of the six packages (incl. closures)
-	inits      []*ssa.Function // synthetic package initialisers of the six packages (lazily filled by callersOf)
+	all        []*ssa.Function         // source functions of the six packages (incl. closures)
+	localRec   map[*types.Named]bool   // record types that live in locals and parameters only (lazily filled)
+	recStores  map[string][]*ssa.Store // stores into the fields of those
+	inits      []*ssa.Function         // synthetic package initialisers of the six packages (lazily filled by callersOf)
 	allSet     map[*ssa.Function]bool
 	cg         *callgraph.Graph
 	obs        []Ob
